@@ -93,6 +93,7 @@ func finish(r *report.Run, us []*unit, results []*unitResult, deaths []deathRec,
 	notes := map[string]int64{}
 	perReactor := map[string]int64{}
 	var samples []json.RawMessage
+	sampleOf := map[string]json.RawMessage{}
 	statesSeen := map[string]bool{}
 	wallKind := map[string]float64{}
 	casesKind := map[string]int64{}
@@ -125,8 +126,8 @@ func finish(r *report.Run, us []*unit, results []*unitResult, deaths []deathRec,
 			statesSeen[u.Reactor+"/"+u.State] = true
 		}
 		irrepro = append(irrepro, res.Irrepro...)
-		if len(samples) < 6 && len(res.Samples) > 0 {
-			samples = append(samples, res.Samples[0])
+		if len(res.Samples) > 0 && sampleOf[u.Reactor+"/"+u.Kind] == nil {
+			sampleOf[u.Reactor+"/"+u.Kind] = res.Samples[0]
 		}
 		for _, v := range res.Viols {
 			c := v.Case
@@ -301,6 +302,20 @@ func finish(r *report.Run, us []*unit, results []*unitResult, deaths []deathRec,
 	r.Set("units", len(us))
 	r.Set("units_done", unitsDone)
 	r.Set("target_validator_key", target)
+	// one real case per reactor first, then per kind
+	var skeys []string
+	for k := range sampleOf {
+		skeys = append(skeys, k)
+	}
+	sort.Strings(skeys)
+	seenReactor := map[string]bool{}
+	for _, k := range skeys {
+		re := strings.SplitN(k, "/", 2)[0]
+		if !seenReactor[re] && len(samples) < 6 && !strings.HasSuffix(k, "/short") && !strings.HasSuffix(k, "/bytes") {
+			seenReactor[re] = true
+			samples = append(samples, sampleOf[k])
+		}
+	}
 	for _, s := range samples {
 		var x interface{}
 		json.Unmarshal(s, &x)
@@ -335,6 +350,16 @@ func finish(r *report.Run, us []*unit, results []*unitResult, deaths []deathRec,
 		r.Require(notes["gossip-runs"] > 1000 && notes["gossip-messages-sent"] > 1000, "the gossip routines hardly ran / sent nothing")
 		r.Require(notes["rejection-expected"] > 100, "the rejection oracle was applied to fewer than 100 cases")
 		r.Require(stages["roundtrip-ok"] >= 24, "fewer than 24 message types went through the encode/decode round trip")
+	}
+	fmt.Printf("summary: tier=%s deliveries=%d cases=%d distinct_nontrivial=%d contained_panics=%d worker_deaths=%d units=%d/%d node_builds=%d\n", tier, r.Get("evaluations"), cases,
+		r.DistinctCount("distinct_nontrivial"), containedTotal, len(deaths), unitsDone, len(us), builds)
+	var cks []string
+	for k := range contained {
+		cks = append(cks, k)
+	}
+	sort.Strings(cks)
+	for _, k := range cks {
+		fmt.Printf("contained-panic: %s x%d\n", k, contained[k])
 	}
 	if len(machinery) > 0 {
 		for _, m := range machinery {
